@@ -68,6 +68,10 @@ CHECKS['C17'] = dict(
     level='proof',
     text='Theorems in Coq closing, for ALL inputs, the places where the receive path could raise something other than a ProtocolError: the inbound header pipeline (cookie joining, every validation stage, text decoding) never raises IndexError for any header list (empty names included) and its UnicodeDecodeError is turned into ProtocolError; every HPACK decoder outcome becomes ProtocolError / DenialOfServiceError or a header list; frames refused by the frame buffer raise ProtocolError / FrameDataMissingError / FrameTooLargeError and InvalidPaddingError is translated by receive_data; every h2 exception class raised on the receive path is a ProtocolError subclass; PRIORITY, GOAWAY and unknown-type frames never raise anything else in any state. The single end-to-end statement (no Python exception from api_receive in every reachable state) is NOT proved as one theorem (it needs the frame-size and window invariants composed over every handler): that composition is covered by the model/implementation correspondence on malformed-frame-heavy programs, a byte-level fuzzer of the real receive_data (tens of thousands of conversations with deviant frames, arbitrary HPACK bytes, mutation, random chunking, all header_encoding/validation configurations) and the frame-buffer model compared with the real FrameBuffer on CONTINUATION floods.',
     design='7.C17', technique='Coq theorems per exception source (all inputs) + differential correspondence + byte-level fuzzing as failing-input search')
+CHECKS['C06'] = dict(
+    level='proof',
+    text='Theorem in Coq over the COMPLETE state space of the stream object (7 RFC states x role x 4 message flags x closed_by) and all 19 inputs: the reaction of the transition table regenerated from stream._transitions plus the side-effect functions (accepted + new state / refused / stream error code / connection error code, told apart as _receive_frame does) equals the reaction of an RFC 7540 section 5.1 reference machine written from the RFC text (Spec/Rfc51.v), except on an explicit, proved-tight list of pairs (documented leniencies, internal inputs, undocumented divergences = known findings F-C06-1..4); permitted actions are possible; accepted steps keep the stream object in lock-step with the RFC machine. Finite space decided by vm_compute and lifted to a universally quantified theorem. Tie to the code: table regenerated every run + exhaustive comparison of all 31 920 process_input configurations with the real H2StreamStateMachine + directed connection-level programs (every zoo state x every frame / action) and random programs compared with the connection model and judged by the RFC table.',
+    design='7.C06', technique='Coq theorem over a finite complete state space (vm_compute, forallb lifted) against an independent RFC reference + exhaustive correspondence')
 NA_REASON = {}
 def main():
     checks = []
